@@ -16,6 +16,9 @@ pub fn adr<T: ?Sized>(x: &T) -> usize { x as *const T as *const u8 as usize }
 impl<const V: usize, const I: usize> From<Gx<V, I>> for Fx<V, I> { fn from(g: Gx<V, I>) -> Self { CALLS.with(|c| c.set(c.get() + 1)); Fx(g.0 + 1) } }
 /// a type every field type can be turned into
 #[derive(Debug, PartialEq, Clone)] pub struct Hx<const V: usize, const I: usize>(pub u32);
+// one-element tuples as conversion partners of a single field: `#[from((G,))]` / `#[into((H,))]` name the TYPE `(G,)` / `(H,)`
+impl<const V: usize, const I: usize> From<(Gx<V, I>,)> for Fx<V, I> { fn from(g: (Gx<V, I>,)) -> Self { CALLS.with(|c| c.set(c.get() + 1)); Fx(g.0 .0 + 5) } }
+impl<const V: usize, const I: usize> From<Fx<V, I>> for (Hx<V, I>,) { fn from(f: Fx<V, I>) -> Self { CALLS.with(|c| c.set(c.get() + 1)); (Hx(f.0 + 6),) } }
 impl<const V: usize, const I: usize> From<Fx<V, I>> for Hx<V, I> { fn from(f: Fx<V, I>) -> Self { CALLS.with(|c| c.set(c.get() + 1)); Hx(f.0 + 2) } }
 pub struct Wrap<T, S>(pub ::core::marker::PhantomData<(T, S)>);
 pub trait HasConv { fn has(&self) -> bool { true } }
@@ -138,6 +141,13 @@ pub fn run(r: &mut R) {
                      'r.eq("exactly one From::from per field (into)", calls(), %d);' % n,
                      'r.eq("Into<own field types> when listed", <%s>::from(%s), %s);' % (ft, full, fv)]
             mk("types_" + style, sat + iat, {}, ["From", "Into"], lines, impls={"From": 2, "Into": 2})
+        if n == 1:
+            # a one-element tuple listed for the single field is the type `(G,)`, not a list of per-field types
+            lines = ['r.eq("From<(G,)> goes through the field type\'s own From<(G,)>", S::from((%s,)), %s);' % (sh.gval(0), sh.lit("S", ["Fx::<%d, %d>(%d)" % (sh.owner, sh.idx[0], 5)])),
+                     'r.check("no From<G> was asked for", !has_from!(S, %s));' % G[0],
+                     'r.eq("Into<(H,)> goes through From<field> for (H,)", <(%s,)>::from(%s), (Hx::<%d, %d>(%d),));' % (H[0], full, sh.owner, sh.idx[0], 1 + 6),
+                     'r.check("no Into<H> was asked for", !has_from!(%s, S));' % H[0]]
+            mk("one_element_tuple_types", ["#[from((%s,))]" % G[0], "#[into((%s,))]" % H[0]], {}, ["From", "Into"], lines, impls={"From": 1, "Into": 1})
         # only listed types get an impl
         lines = ['r.eq("From<listed type>", S::from(%s), %s);' % (gv, conv),
                  'r.check("no From<field types> unless listed", !has_from!(S, %s));' % ft,
